@@ -58,6 +58,31 @@ func plan(tier string, seed int64) []driver.Case {
 			add(fmt.Sprintf("collect-async/%s/%s", e.Name, sc), map[string]string{"kind": "collect", "entry": e.Name, "script": sc, "async": "1"})
 		}
 	}
+	// the emitting goroutine is parked between the moment a subscriber marks itself terminated
+	// and the moment it runs the terminal callback: Wait / Collect must sit this window out
+	for _, e := range catalog.All() {
+		if e.Op == nil || e.Flags.Has(catalog.Blocks) || e.Flags.Has(catalog.Creation) {
+			continue
+		}
+		for _, sc := range []string{"1 2 E", "1 C", "E"} {
+			for _, v := range []string{"collect", "wait"} {
+				for _, async := range []string{"1", "", "held"} {
+					add(fmt.Sprintf("park-terminal/%s/%s/%s/async=%s", v, e.Name, sc, async), map[string]string{"kind": "park-terminal", "variant": v, "entry": e.Name, "script": sc, "async": async})
+				}
+			}
+		}
+	}
+	// a source whose teardown panics: the stream still terminates, Wait and Collect must return
+	for _, e := range catalog.All() {
+		if e.Op == nil || e.Flags.Has(catalog.Blocks) || e.Flags.Has(catalog.Creation) {
+			continue
+		}
+		for _, sc := range []string{"1 2 E", "1 C"} {
+			for _, v := range []string{"collect", "wait", "unsubscribe"} {
+				add(fmt.Sprintf("teardown-panic/%s/%s/%s", v, e.Name, sc), map[string]string{"kind": "teardown-panic", "variant": v, "entry": e.Name, "script": sc})
+			}
+		}
+	}
 	ch := catalog.Chainable()
 	var usable []*catalog.Entry
 	for _, e := range ch {
@@ -565,6 +590,267 @@ func runCollect(c driver.Case) driver.Result {
 	return res
 }
 
+// runParkTerminal widens the window in which a subscriber already reports closed (its status word
+// has flipped) but the terminal callback has not run yet: the goroutine that delivers the terminal
+// notification is parked at the hook point inside that window, at every nesting level of the
+// pipeline in turn. Collect must still return the stream's error and values; a Wait must not
+// return before the observer's terminal callback has.
+func runParkTerminal(c driver.Case) driver.Result {
+	const point = "subscriber.terminal.marked"
+	e := catalog.Get(c.Get("entry"))
+	sc := src.Parse(c.Get("script"))
+	variant, async := c.Get("variant"), c.Get("async") != ""
+	// "held": source 0 plays its script from a worker goroutine and its subscribe function returns
+	// only once that worker is parked in the window (or done) - so the caller of Subscribe comes
+	// back to a subscriber that is marked terminated but whose terminal callback is still pending
+	held := c.Get("async") == "held"
+	res := driver.Result{Verdict: driver.Held}
+	what := fmt.Sprintf("%s over [%s] (async=%v), %s", e.Name, sc, async, variant)
+	type outcome struct {
+		vals    []string
+		err     error
+		tapped  []string
+		tapErr  error
+		tapTerm bool
+		st      quiesce.CallResult
+		early   string
+		rec     *rec.Rec
+	}
+	// one execution; nth == 0: nothing parked (counting run)
+	exec := func(nth int) outcome {
+		var o outcome
+		scripts := make([]src.Script, e.NSrc)
+		for i := range scripts {
+			scripts[i] = sc
+		}
+		bb := build(c, async, scripts)
+		cb := &catalog.B{}
+		for _, s := range bb.srcs {
+			cb.Srcs = append(cb.Srcs, s.Observable())
+		}
+		var arrived <-chan struct{}
+		release := func() {}
+		if nth > 0 {
+			arrived, release = sched.Park(point, nth)
+		}
+		defer sched.ClearParks()
+		if held {
+			parked := arrived
+			cb.Srcs[0] = ro.NewObservable(func(dest ro.Observer[int]) ro.Teardown {
+				played := make(chan struct{})
+				go func() {
+					defer close(played)
+					defer func() { recover() }()
+					for _, n := range sc {
+						switch n.K {
+						case rec.Next:
+							dest.Next(n.V)
+						case rec.Error:
+							dest.Error(src.ErrSrc)
+						case rec.Complete:
+							dest.Complete()
+						}
+					}
+				}()
+				select {
+				case <-parked: // nil (blocks forever) in the counting run
+				case <-played:
+				}
+				return nil
+			})
+		}
+		var mu sync.Mutex
+		obs := ro.TapWithContext(
+			func(_ context.Context, v int) { mu.Lock(); o.tapped = append(o.tapped, fmt.Sprint(v)); mu.Unlock() },
+			func(_ context.Context, err error) { mu.Lock(); o.tapErr, o.tapTerm = err, true; mu.Unlock() },
+			func(_ context.Context) { mu.Lock(); o.tapTerm = true; mu.Unlock() },
+		)(e.Op(cb)(cb.S(0)))
+		done := make(chan struct{})
+		var returned atomic.Bool
+		o.rec = rec.New(e.Name)
+		go func() {
+			defer close(done)
+			defer func() { recover() }()
+			if variant == "collect" {
+				vals, err := ro.Collect(obs)
+				for _, v := range vals {
+					o.vals = append(o.vals, fmt.Sprint(v))
+				}
+				o.err = err
+			} else {
+				sub := obs.Subscribe(rec.Raw[int](o.rec))
+				sub.Wait()
+			}
+			returned.Store(true)
+		}()
+		if nth > 0 {
+			select {
+			case <-arrived:
+				// the delivering goroutine sits in the window; everything else gets time to move
+				quiesce.Settle(2 * time.Second)
+				if returned.Load() && variant == "wait" && o.rec.Terminal() == rec.Next {
+					o.early = "Wait returned while the goroutine delivering the terminal notification was parked before the observer's terminal callback (observer has seen: [" + o.rec.TraceString() + "])"
+				}
+				release()
+			case <-done:
+			}
+		}
+		o.st, _, _ = quiesce.Call(func() { <-done }, 15*time.Second)
+		return o
+	}
+	sched.CountHits(true)
+	sched.Hits()
+	base := exec(0)
+	n := int(sched.Hits()[point])
+	sched.CountHits(false)
+	if base.st != quiesce.Returned {
+		// the operator never ends on this input: nothing to park (covered by the collect / wait-order kinds)
+		res.Events, res.Nontrivial, res.Dirty = 1, false, true
+		res.Extra = map[string]int64{"stream_does_not_terminate": 1}
+		return res
+	}
+	if n > 6 {
+		n = 6
+	}
+	for nth := 1; nth <= n; nth++ {
+		o := exec(nth)
+		res.Events += int64(len(o.tapped)) + 1
+		if o.st == quiesce.Hung {
+			res.Verdict, res.Key, res.Dirty = driver.Violated, "C06/"+e.Family+"/"+variant+"-hangs-after-delayed-terminal", true
+			res.Msg = fmt.Sprintf("%s: delivering goroutine parked at hit %d of %s and released again: the call never returns", what, nth, point)
+			return res
+		}
+		if o.st != quiesce.Returned {
+			res.Verdict, res.Key, res.Dirty = driver.Inconclusive, "call-did-not-return", true
+			return res
+		}
+		if o.early != "" {
+			res.Verdict, res.Key = driver.Violated, "C06/"+e.Family+"/wait-returned-before-terminal-callback-ran"
+			res.Msg = fmt.Sprintf("%s, parked at hit %d of %d: %s", what, nth, n, o.early)
+			return res
+		}
+		if variant == "collect" {
+			if strings.Join(o.vals, " ") != strings.Join(o.tapped, " ") {
+				res.Verdict, res.Key = driver.Violated, "C06/"+e.Family+"/collect-result-differs-from-delivered-values"
+				res.Msg = fmt.Sprintf("%s, parked at hit %d of %d: Collect returned [%s], the stream delivered [%s]", what, nth, n, strings.Join(o.vals, " "), strings.Join(o.tapped, " "))
+				return res
+			}
+			if (o.err == nil) != (o.tapErr == nil) {
+				res.Verdict, res.Key = driver.Violated, "C06/"+e.Family+"/collect-error-differs-from-delivered-terminal"
+				res.Msg = fmt.Sprintf("%s, parked at hit %d of %d: Collect returned err=%v, the stream ended with err=%v (Collect came back before its own terminal callback had run)", what, nth, n, o.err, o.tapErr)
+				return res
+			}
+		}
+	}
+	res.Nontrivial = n > 0
+	res.Extra = map[string]int64{"terminal_windows_parked": int64(n)}
+	res.Sig = fmt.Sprintf("park-terminal/%s/%s/%s/%d", variant, e.Name, sc, n)
+	res.Sample = map[string]any{"pipeline": e.Name, "script": sc.String(), "variant": variant, "async": async, "nesting_levels_parked": n, "collected": strings.Join(base.vals, " "), "err": fmt.Sprint(base.err)}
+	return res
+}
+
+// runTeardownPanic: the source's teardown panics. Whoever triggers the release gets the panic
+// (the delivering goroutine when the stream ends by itself, the caller of Unsubscribe otherwise),
+// but the subscription is closed all the same: a Wait started before must return, Collect must
+// come back with what was delivered.
+func runTeardownPanic(c driver.Case) driver.Result {
+	e := catalog.Get(c.Get("entry"))
+	sc := src.Parse(c.Get("script"))
+	variant := c.Get("variant")
+	res := driver.Result{Verdict: driver.Held}
+	what := fmt.Sprintf("%s over an asynchronous source playing [%s] whose teardown panics, %s", e.Name, sc, variant)
+	start := make(chan struct{})
+	var tornDown atomic.Int64
+	mk := func() ro.Observable[int] {
+		return ro.NewObservable(func(dest ro.Observer[int]) ro.Teardown {
+			go func() {
+				defer func() { recover() }()
+				<-start
+				for _, n := range sc {
+					switch n.K {
+					case rec.Next:
+						dest.Next(n.V)
+					case rec.Error:
+						dest.Error(src.ErrSrc)
+					case rec.Complete:
+						dest.Complete()
+					}
+				}
+			}()
+			return func() { tornDown.Add(1); panic("teardown-panics") }
+		})
+	}
+	cb := &catalog.B{}
+	for i := 0; i < e.NSrc; i++ {
+		cb.Srcs = append(cb.Srcs, mk())
+	}
+	var mu sync.Mutex
+	var tapped []string
+	var tapErr error
+	var tapTerm atomic.Bool
+	obs := ro.TapWithContext(
+		func(_ context.Context, v int) { mu.Lock(); tapped = append(tapped, fmt.Sprint(v)); mu.Unlock() },
+		func(_ context.Context, err error) { mu.Lock(); tapErr = err; mu.Unlock(); tapTerm.Store(true) },
+		func(_ context.Context) { tapTerm.Store(true) },
+	)(e.Op(cb)(cb.S(0)))
+	r := rec.New(e.Name)
+	done := make(chan struct{})
+	var vals []string
+	var err error
+	var subp atomic.Pointer[ro.Subscription]
+	go func() {
+		defer close(done)
+		defer func() { recover() }()
+		if variant == "collect" {
+			vs, e2 := ro.Collect(obs)
+			for _, v := range vs {
+				vals = append(vals, fmt.Sprint(v))
+			}
+			err = e2
+		} else {
+			sub := obs.Subscribe(rec.Raw[int](r))
+			subp.Store(&sub)
+			sub.Wait()
+		}
+	}()
+	quiesce.Settle(time.Second) // Collect / Wait are in place
+	if variant == "unsubscribe" {
+		if sp := subp.Load(); sp != nil {
+			func() { defer func() { recover() }(); (*sp).Unsubscribe() }()
+		}
+	}
+	close(start)
+	st, dump, _ := quiesce.Call(func() { <-done }, 15*time.Second)
+	res.Events, res.Nontrivial = int64(r.Len())+int64(len(vals))+1, true
+	res.Sig = fmt.Sprintf("teardown-panic/%s/%s/%s", variant, e.Name, sc)
+	res.Sample = map[string]any{"pipeline": e.Name, "script": sc.String(), "variant": variant, "source_teardowns_run": tornDown.Load(), "collected": strings.Join(vals, " ")}
+	if st == quiesce.Hung {
+		if variant != "unsubscribe" && !tapTerm.Load() {
+			// the operator never ends on this input: nothing closes the subscription
+			res.Nontrivial, res.Dirty = false, true
+			res.Extra = map[string]int64{"stream_does_not_terminate": 1}
+			return res
+		}
+		res.Verdict, res.Key, res.Dirty = driver.Violated, "C06/"+e.Family+"/"+variant+"-hangs-when-a-teardown-panics", true
+		res.Msg = what + ": the subscription was closed (stream ended / Unsubscribe returned) but the call never returns; all goroutines blocked"
+		res.Witness = dump
+		return res
+	}
+	if st != quiesce.Returned {
+		res.Verdict, res.Key, res.Dirty = driver.Inconclusive, "call-did-not-return", true
+		return res
+	}
+	if variant == "collect" {
+		mu.Lock()
+		defer mu.Unlock()
+		if strings.Join(vals, " ") != strings.Join(tapped, " ") || (err == nil) != (tapErr == nil) {
+			res.Verdict, res.Key = driver.Violated, "C06/"+e.Family+"/collect-result-differs-from-delivered-values"
+			res.Msg = fmt.Sprintf("%s: Collect returned [%s] err=%v, the stream delivered [%s] err=%v", what, strings.Join(vals, " "), err, strings.Join(tapped, " "), tapErr)
+		}
+	}
+	return res
+}
+
 func runConc(c driver.Case) driver.Result {
 	var sd int64
 	fmt.Sscan(c.Get("seed"), &sd)
@@ -730,6 +1016,10 @@ func runCase(c driver.Case) driver.Result {
 		return runWaitOrder(c)
 	case "collect":
 		return runCollect(c)
+	case "park-terminal":
+		return runParkTerminal(c)
+	case "teardown-panic":
+		return runTeardownPanic(c)
 	case "conc":
 		return runConc(c)
 	case "subject":
